@@ -615,6 +615,10 @@ def _execute(plan, w, tr):
                     break
             old_c = data[pos]
             new_c = "0123456789abcdef"[(("0123456789abcdef".index(old_c) if old_c in "0123456789abcdef" else 0) + 1 + st["c"] % 15) % 16]
+            if st.get("mode") == "nonhex":
+                new_c = "gGxz~ "[st["c"] % 6]  # still a legal JSON string character, no longer a hex digit
+            elif st.get("mode") == "delete":
+                new_c = ""  # one character lost: an odd number of hex digits
             w.fs.files[name] = data[:pos] + new_c + data[pos + 1 :]
             w.torn_files.add(name)
             tr.fault("stored_byte_flipped")
@@ -907,7 +911,7 @@ def generate(ch, tier, prop):
                 st["enospc"] = ch.choice([0, 1, 2, 50, 200, 1000, ch.randrange(0, 3000)])
             steps.append(st)
             if disk and ch.chance(0.4):
-                steps.append({"op": "bitrot", "pos": ch.randrange(0, 100000), "c": ch.randrange(15)})
+                steps.append({"op": "bitrot", "pos": ch.randrange(0, 100000), "c": ch.randrange(15), "mode": ch.choice(["hex", "hex", "nonhex", "delete"])})
             if ch.chance(0.7):
                 steps.append({"op": "restart"})
                 steps.append({"op": "load"})
@@ -949,6 +953,10 @@ def enumerate_plans(tier, prop, seed):
     for pos in range(0, 900, 3 if tier == "quick" else 1):
         yield {"db": base_db, "steps": [{"op": "fetch", "tx": 0}, {"op": "fetch", "tx": 1}, {"op": "dump"}, {"op": "bitrot", "pos": pos, "c": pos % 15}, {"op": "restart"}, {"op": "load"}, {"op": "fetch", "tx": 0}, {"op": "fetch", "tx": 1},
                                         {"op": "lazy", "tx": 0, "vout": 0, "what": "value"}], "enum": "bitrot"}
+    for pos in range(0, 900, 7 if tier == "quick" else 1):
+        for mode in ("nonhex", "delete"):
+            yield {"db": base_db, "steps": [{"op": "fetch", "tx": 0}, {"op": "fetch", "tx": 1}, {"op": "fetch", "tx": 2}, {"op": "dump"}, {"op": "bitrot", "pos": pos, "c": pos % 15, "mode": mode}, {"op": "restart"}, {"op": "load"},
+                                            {"op": "fetch", "tx": 0}, {"op": "fetch", "tx": 1}, {"op": "fetch", "tx": 2}], "enum": "bitrot-" + mode}
     for room in range(0, 400, 9 if tier == "quick" else 1):
         yield {"db": base_db, "steps": [{"op": "fetch", "tx": 0}, {"op": "fetch", "tx": 1}, {"op": "dump", "enospc": room}, {"op": "fetch", "tx": 0}, {"op": "restart"}, {"op": "load"}, {"op": "fetch", "tx": 1}], "enum": "enospc"}
     # in-place edits of parsed transactions with non-minimally encoded scripts
